@@ -154,6 +154,18 @@ def check_bitserial(ctx, rep, tier):
         raise Undecided('Ps2Decoder::new is not a constant constructor')
     state0 = lv[0].ret
     rep.analysed['state0'] = term_str(state0)
+    # any other constructor (Default::default, ...) must produce the same initial decoder
+    for f in ctx.facts['fns']:
+        o = f.get('output') or {}
+        if f['path'] != f_new['path'] and not f.get('derived') and f['body']['arg_count'] == 0 and o.get('k') == 'adt' and o.get('path') == PS2:
+            e2 = Engine(prog)
+            l2 = e2.run(f['path'])
+            ok = len(l2) == 1 and l2[0].kind == 'return' and l2[0].ret == state0
+            rep.ob('constructors agree with new()', 1, 1 if ok else 0)
+            if not ok:
+                rep.finding('C06 constructor %s initial-state' % f['path'].split('::')[-1],
+                            '%s (at %s) builds %s, new() builds %s: the first frame is decoded from a different state' % (
+                                f['path'], f['sp'], term_str(l2[0].ret) if l2 else '?', term_str(state0)))
     NB = 11
     # abstract states: list of (ghost cube, decoder value); ghost atom b<i> = i-th bit shifted in
     states = [({}, state0)]
